@@ -22,7 +22,7 @@ ALPHABET = [
     ("remove_edge", (0, 1), "a"), ("remove_edge", (1, 0), "b"), ("remove_edge", (0, 1, 2), "a"),
     ("remove_node", 0), ("remove_node", 1, True), ("remove_node", 2, True),
     ("set_weight", (0, 1), "a", 5), ("set_weight", (1, 0), "b", 1),
-    ("set_attr_node", 0, "x", 1), ("set_attr_edge", (0, 1), "a", "y", 2),
+    ("set_attr_node", 0, "x", 1), ("set_attr_node", 1, "z", 3), ("set_attr_edge", (0, 1), "a", "y", 2),
     ("del_attr_node", 0, "x"), ("del_attr_edge", (0, 1), "a", "y"),
 ]
 
